@@ -22,6 +22,7 @@ from lib import Infra, q
 MODULE = "ProbLogProofs.Properties.C17"
 THEOREMS = [
     "ProbLogProofs.C17.C17_roundtrip_partial",
+    "ProbLogProofs.C17.C17_fold_total_partial",
     "ProbLogProofs.C17.C17_roundtrip_refuted_or_operand",
     "ProbLogProofs.C17.C17_roundtrip_refuted_prefix_operand",
     "ProbLogProofs.C17.C17_roundtrip_refuted_left_nested_and",
@@ -41,11 +42,13 @@ MANIFEST = {
     "technique": "Lean 4 theorems about hand-written models of logic.py's printer and parser.py's collapse/label/fold "
                  "(operator table regenerated from parser.py each run) + exact correspondence of printer, lexer and "
                  "parser models with the implementation + independent round-trip oracle and totality fuzzing on the real code",
-    "text": "Proved in Lean on the model: parse(print t) = t for the well-formed class stated in C17_roundtrip_partial "
-            "(operator-free terms: variables, numbers, strings, plain and quoted atoms, compound terms, lists with tails, "
-            "arbitrarily nested), refutations with witnesses for the shapes where the printer/parser pair does not "
-            "round-trip, and: the modelled collapse/label_tokens/fold never reach an internal (non-ProbLog) exception "
-            "except at the two refuted sites (C17_fold_total_partial). Every run ties the models to the code (exact "
+    "text": "Proved in Lean on the model: the modelled collapse/label_tokens/fold read the token list of every "
+            "operator-free term (variables, numbers, strings, plain and quoted atoms, [], compound terms, lists with "
+            "tails, arbitrarily nested) back to that term (C17_roundtrip_partial; the driver checks that the token list "
+            "is the tokenization of the printed text); 9 refutations with witnesses for the shapes where the "
+            "printer/parser pair does not round-trip; for every token list without '<' the modelled "
+            "collapse/label_tokens/fold reach no internal (non-ProbLog) exception except at the two raise sites of "
+            "_build_clause (C17_fold_total_partial), 3 refutation witnesses for the full totality statement. Every run ties the models to the code (exact "
             "strings / token lists / parse results on generated ASTs, all corpus statements and their mutants), runs "
             "an independent print-parse-compare oracle on ASTs over the full operator table, and fuzzes PrologString "
             "for exceptions that are not ProbLogError subclasses.",
@@ -679,6 +682,7 @@ def run(ctx):
         _, toks = rng.choice(corpus)
         texts.append(join_tokens(mutate(rng, toks, rng.choice(corpus)[1])))
     lines, reals, crash_sites = [], [], {}
+    bad_flags = []
     n_stmt = 0
     for s in texts:
         try:
@@ -690,6 +694,11 @@ def run(ctx):
         if not toks:
             continue
         line = "parse (" + " ".join(U.tok_text(x, specials) for x in toks) + ")"
+        for x in toks:  # hypothesis of C17_fold_total_partial on the flags of real tokens
+            if x.aggregate or (not x.atom and x.functor) or (x.special in (3, 9) and x.atom):
+                bad_flags.append((s[:80], x.string))
+        if any(x.special == 12 for x in toks):
+            ctx.count("collapse:has-sharp-open(outside C17_fold_total_partial)")
         real, site = real_collapse(s, toks)
         lines.append(line)
         reals.append((s, real))
@@ -715,6 +724,8 @@ def run(ctx):
         ctx.disagree("Parser model vs parser.collapse", "`%s`: model %s, implementation %s" % first_collapse_diff)
     ctx.obligation("correspondence (iii): collapse/label/fold model = parser.collapse on %d statements (corpus %d, mutants %d)" % (
         n_stmt, len(corpus), n_mut), first_collapse_diff is None)
+    ctx.obligation("theorem tie: every real token satisfies the flag hypotheses of C17_fold_total_partial "
+                   "(aggregate unset, functor only with atom, ',' and '|' not atoms)", not bad_flags, str(bad_flags[:3]))
     ctx.sample({"statement": texts[3][:120], "outcome": reals[3][1][:120] if len(reals) > 3 else ""})
 
     # =============================================================== (iv): totality fuzz on PrologString
